@@ -48,7 +48,7 @@ func c19JudgeTuple(t c19Tuple) (string, string) {
 	q, _ := url.ParseQuery(t.Query)
 	digisUnsupported := t.Scheme == "ardop" || t.Scheme == "telnet"
 	switch {
-	case len(t.Target) < 3:
+	case len(strings.ToUpper(t.Target)) < 3: // the target as it would be returned (for ASCII the same length as written)
 		if err == nil {
 			return "short-target-accepted", raw
 		}
@@ -148,7 +148,8 @@ func c19Tuples() []c19Tuple {
 		}
 		digis = append(digis, d)
 	}
-	targets := []string{"LA5NTA", "la5nta-5", "wl2k", "AB", "A", ""} // "": the path ends in a slash - no target at all
+	targets := []string{"LA5NTA", "la5nta-5", "wl2k", "AB", "A", "", // "": the path ends in a slash - no target at all
+		"\u017fa", "\u0131\u017f"} // three bytes as written, two characters either way, two bytes upper-cased (SA, IS)
 	queries := []string{"", "host=ax0", "host=%2Fdev%2FttyS0", "bw=500", "a=1&a=2", "host=tnc%3A8000&freq=7.1"}
 	var out []c19Tuple
 	for _, s := range schemes {
